@@ -20,6 +20,9 @@ NAMES = ["xml", "XML", "Xml", "xMl", "xmL", "xm", "xmla", "xmlns", "XMLSchema", 
          "UBERON", "MESH", "true", "false", "null", "None", "nan", "NaN", "inf", "id", "ID", "class", "type", "prefix", "base", "ns", "ns1", "nil", "x", "X", "bnode"]
 
 
+ESCAPES = ["%20", "%2F", "%2f%2F", "%09", "%0A", "%5B", "%5D", "%25", "%C2%A0", "%E3%80%80", "%3A", "%"]
+
+
 def mk(s: str):
     return [s, "".join(sorted({c for c in s if c.isspace()}))]
 
@@ -59,6 +62,13 @@ class C20(Plugin):
                 if y not in seen:
                     seen.add(y)
                     out.append(mk(y))
+        # percent-escapes are ordinary characters of a reference: "%20" is not a space, "%2F%2F" is not "//"
+        for tok in ESCAPES:
+            for a, b in itertools.product(SMALL + [""], repeat=2):
+                for y in (a + tok + b, a + b + tok, tok + a + b, "p:" + a + tok + b, a + tok + tok + b):
+                    if y not in seen:
+                        seen.add(y)
+                        out.append(mk(y))
         for x in ASCII:
             for a, b in itertools.product(SMALL, repeat=2):
                 for y in (a + x + b, a + b + x, x + a + b):
@@ -68,7 +78,7 @@ class C20(Plugin):
         return out
 
     def generate(self, rng: random.Random, n: int):
-        pool = REPS + EXOTIC
+        pool = REPS + EXOTIC + ESCAPES
         for _ in range(n):
             k = rng.randint(5, 14)
             yield mk("".join(rng.choice(pool) for _ in range(k)))
